@@ -150,7 +150,7 @@ type propC19 struct{ seqProp }
 func init() {
 	Register(propC19{seqProp{id: "C19",
 		rule: "cases by run index: (a) upgrade restart - a database directory written through the public API by the pinned revision 42f3f3c (long, multi-byte, binary and empty keys, overwritten keys with uncollected versions, a tombstone, a committed multi-key transaction, versions of a never-committed and of a rolled-back transaction) is opened by the current tree, everything its writer acknowledged is read back, then a seeded history with restarts continues on it; (b) restart round trips - histories cut at restarts into segments, each executed by a fresh process (or, half of the time, by one process with the counter reset), sequence counter based at 0, 2^32-3, 2^63-3, keys of arbitrary bytes; (c) corruption - one stored version record of the fixture truncated to 0..60 bytes and/or garbled before Open: shorter than 40 bytes => Open fails, never a panic; oracle: reference model carried across restarts; distinct = hash(case); non-trivial = the run restarted on persisted data at least once (a, b) or a record was damaged (c)",
-		runs: [2]int{900, 30000}}})
+		runs: [2]int{2500, 30000}}})
 }
 
 func (p propC19) Gen(r *simrt.Rand, idx int, tier string) any {
